@@ -64,8 +64,21 @@ LengthOutcome(kind, class) ==      \* kind: "zigzag" (strings, sequences) or "by
   IF kind = "zigzag" THEN (IF class = "i32max" THEN "ok" ELSE "BadLength")
   ELSE (IF class = "u32max+1" THEN "BadLength" ELSE "ok")
 
+\* a codec that makes a top-level call of its own: an envelope <<dstr "a", the inner encoding as a byte array, dstr "a">>
+\* around the tuple <<"x", c, dstr "b", dstr "b">>.  The inner call has its own tables (the repeat of "b" is its id 1),
+\* the outer table still holds exactly "a" afterwards (the repeat is a back-reference to id 1), and an unsupported
+\* character inside is an error of the outer call.
+InnerT == [k |-> "tup", es |-> <<STR, CH, K("dstr"), K("dstr")>>]
+InnerV(c) == <<10, <<3, 120>>, c, <<3, 98>>, <<3, 98>>>>
+Nested(c) == LET i == Encode(InnerT, InnerV(c)) IN
+  IF ~i.ok THEN <<c, FALSE, i.err, <<>>>>
+  ELSE <<c, TRUE, "", EncStrBytes(<<97>>) \o Encode(K("vecu8"), <<9>> \o i.b).b \o VarI(-1)>>
+NestedCases == IF T = CH THEN {Nested(Chars[i]) : i \in 1..Len(Chars)} ELSE {}
+NestedOK == \A i \in 1..Len(Chars) : Nested(Chars[i])[2] = Encodable(Chars[i])
+
 CaseOf(v) == LET e == Encode(T, v) IN [v |-> v, ok |-> e.ok, err |-> IF e.ok THEN "" ELSE e.err, b |-> IF e.ok THEN e.b ELSE <<>>]
 EmitCases == PrintT(<<"REPLAY", ToJson([ty |-> T, cases |-> IF T \in DeclTypes THEN {CaseOf(v) : v \in StructVals(T)}
                                                               ELSE {CaseOf(Wrap(Chars[i])) : i \in 1..Len(Chars)},
-                        lengths |-> {<<k, c, LengthOutcome(k, c)>> : k \in {"zigzag", "bytes"}, c \in LenClasses}])>>)
+                        lengths |-> {<<k, c, LengthOutcome(k, c)>> : k \in {"zigzag", "bytes"}, c \in LenClasses},
+                        nested |-> NestedCases])>>)
 =============================================================================
